@@ -64,6 +64,95 @@ def build(ctx):
     if not nfmt:
         raise Inconclusive('format_project: no path formats a file')
     ctx.cover('cover/some-path-formats-a-file', [z3.BoolVal(nfmt > 0)])
+    part_emitter(ctx, eng, rp)
+
+
+def part_emitter(ctx, eng, rp):
+    """SilentOnIgnoredFilesEmitter::emit_diagnostic, one step from an arbitrary emitter state: an error may be forgotten (`can_reset`) only
+    while every diagnostic so far was non-fatal and located in a file matched by `ignore`. State: (has_non_ignorable_parser_errors H,
+    can_reset R) under the invariant H => not R; the diagnostic: fatal?, has a primary span?, file name shape, ignore-set match."""
+    em = eng.find('emit_diagnostic', self_ty='SilentOnIgnoredFilesEmitter', file='src/parse/session.rs', trait='Emitter')
+    eng.stubs = []
+    eng.lenient = True
+    eng.inline_only = [re.compile(r'emit_diagnostic$'), re.compile(r'handle_non_ignoreable_error$')]
+    H0, R0 = z3.Bool('has_non_ignorable_parser_errors'), z3.Bool('can_reset')
+    F = z3.Bool('diagnostic_is_fatal')
+    M = z3.Bool('file_matches_ignore')
+    cell = {}
+
+    def a_store(e, s_, a, c):
+        s_.notes['can_reset'] = a[1]
+        s_.trace.append(('store', a[1]))
+        return UNIT
+    eng.stub(r'AtomicBool::store$', a_store, 'AtomicBool::store on can_reset observed (single-threaded: the flag is a plain boolean)')
+    eng.stub(r'AtomicBool::load$', lambda e, s_, a, c: s_.notes.get('can_reset', R0), 'AtomicBool::load')
+    eng.stub(r'Arc<AtomicBool> as (std::ops::)?Deref>::deref$', lambda e, s_, a, c: Opaque('AtomicBool', 'can_reset'), 'the shared can_reset flag')
+    eng.stub(r'<rustc_errors::Level as (std::cmp::)?PartialEq>::eq$', lambda e, s_, a, c: F, 'diag.level() == Fatal: symbolic')
+    eng.stub(r'IgnorePathSet::is_match$', lambda e, s_, a, c: (s_.trace.append(('is_match',)), M)[1], 'IgnorePathSet::is_match(file of the primary span): symbolic')
+    eng.stub(r'Emitter>::emit_diagnostic$', lambda e, s_, a, c: (s_.trace.append(('forwarded',)), UNIT)[1], 'the wrapped emitter receives the diagnostic: observed')
+    st = State()
+    st.assume(z3.Implies(H0, z3.Not(R0)))
+    fields = [n for n, _ in eng.src.struct_fields('SilentOnIgnoredFilesEmitter', 'src/parse/session.rs')]
+    vals = []
+    for n in fields:
+        if n == 'has_non_ignorable_parser_errors':
+            vals.append(H0)
+        else:
+            vals.append(Opaque('field', n))
+    selfref = eng.ref_to(st, Tup(vals, 'SilentOnIgnoredFilesEmitter'), True, 'emitter')
+    fn = eng.get_fn(em)
+    outs = ctx.check_outcomes(eng.run(em, [selfref, Opaque('DiagInner', 'diag'), eng.fresh_of_type(st, fn.params[2][1], 'registry')], st), 'emit_diagnostic')
+    hidx = fields.index('has_non_ignorable_parser_errors')
+    kinds = set()
+    for pi, o in enumerate(outs):
+        if o.kind != 'ret':
+            continue
+        tr = [t[0] for t in o.state.trace]
+        H1 = eng.read_ref(o.state, selfref).items[hidx]
+        R1 = o.state.notes.get('can_reset', R0)
+        asked = 'is_match' in tr
+        # ignorable on this path: not fatal, and the ignore set was consulted (primary span in a real local file) and matched
+        ignorable = z3.And(z3.Not(F), M) if asked else z3.BoolVal(False)
+        kinds.add('asked' if asked else 'direct')
+        tag = 'emitter/p%d' % pi
+        fwd = tr.count('forwarded')
+        mv = [H0, R0, F, M]
+        ctx.prop(tag + '/ignorable-diagnostic:swallowed,state-kept,may-reset-only-if-nothing-else-failed', o.state.pc + [ignorable],
+                 z3.Or(z3.BoolVal(fwd != 0), H1 != H0, R1 != z3.If(H0, R0, z3.BoolVal(True))), mv, replay_emitter, twin=False)
+        ctx.prop(tag + '/any-other-diagnostic:forwarded-once,recorded,reset-forbidden', o.state.pc + [z3.Not(ignorable)],
+                 z3.Or(z3.BoolVal(fwd != 1), z3.Not(H1), R1), mv, replay_emitter, twin=False)
+        ctx.prop(tag + '/invariant:a-recorded-error-forbids-the-reset', o.state.pc, z3.And(H1, R1), mv, replay_emitter, twin=False)
+    if kinds != {'asked', 'direct'}:
+        raise Inconclusive('emit_diagnostic: paths explored %r' % (sorted(kinds),))
+    eng.stubs = []
+    eng.lenient = False
+    eng.inline_only = None
+
+
+def replay_emitter(model, r):
+    """an error in a non-ignored module must fail the run even if an ignored module before it was broken too"""
+    import hashlib
+    bins = ensure_bins()
+    rf = os.path.join(bins, 'rustfmt')
+    d = os.path.join(BUILD, 'scratch', 'c05e-%d' % os.getpid())
+    found = []
+    bad_fmt = 'pub fn   f( ) { }\n'
+    broken = 'pub fn g() {\n    let mut mut x = 1;\n}\n'
+    for what, files, want_exit, must_change in (
+            ('ignored broken module, then a non-ignored broken module', {'lib.rs': 'mod generated;\nmod util;\n' + bad_fmt, 'generated.rs': broken, 'util.rs': broken}, 1, []),
+            ('only the ignored module is broken', {'lib.rs': 'mod generated;\nmod util;\n' + bad_fmt, 'generated.rs': broken, 'util.rs': bad_fmt}, 0, ['lib.rs', 'util.rs'])):
+        shutil.rmtree(d, ignore_errors=True)
+        os.makedirs(d)
+        for n, t in files.items():
+            open(os.path.join(d, n), 'w').write(t)
+        open(os.path.join(d, 'rustfmt.toml'), 'w').write('ignore = ["generated.rs"]\n')
+        before = {n: hashlib.sha256(open(os.path.join(d, n), 'rb').read()).hexdigest() for n in files}
+        r_ = subprocess.run([rf, 'lib.rs'], capture_output=True, text=True, env=run_env(), timeout=60, cwd=d)
+        changed = sorted(n for n in files if hashlib.sha256(open(os.path.join(d, n), 'rb').read()).hexdigest() != before[n])
+        if r_.returncode != want_exit or changed != sorted(must_change):
+            found.append('%s: exit %d (expected %d), files rewritten %r (expected %r)' % (what, r_.returncode, want_exit, changed, sorted(must_change)))
+    shutil.rmtree(d, ignore_errors=True)
+    return {'reproduced': bool(found), 'detail': found}
 
 
 def cli_findings():
